@@ -295,6 +295,13 @@ pub fn run(ctx: &mut Ctx) {
         let cases = ctx.cases(4000, 10);
         ctx.forall(&format!("pairs/{}", id.name()), cases, strat(id, max), dispatch);
     }
+    for id in ALL_CODECS {
+        let m = id.model();
+        let th = ctx.thorough();
+        let cases = ctx.cases(6, 8);
+        let st = (gen::seq_spec_long(id, th), rel(m), gen::any_repr(m)).prop_map(move |(a, rel, b_repr)| Case { codec: id, a, rel, b_repr });
+        ctx.forall(&format!("pairs_long/{}", id.name()), cases, st, dispatch);
+    }
     let types = ktypes();
     for id in ALL_CODECS {
         for st in ALL_ST {
@@ -302,7 +309,7 @@ pub fn run(ctx: &mut Ctx) {
             if ks.is_empty() {
                 continue;
             }
-            let cases = ctx.cases((ks.len() * 40) as u32, 10);
+            let cases = ctx.cases((ks.len() * 80) as u32, 8);
             ctx.forall(&format!("kmers/{}/{}", id.name(), st.name()), cases, kstrat(id, st, ks), kcheck);
         }
     }
